@@ -153,6 +153,22 @@ Proof.
     eapply I_ctx_put; eauto using SEq_refl. intros Hok.
     apply upd_ctx_ok; assumption.
   - (* end block *) exfalso. eapply Hne. reflexivity.
+  - (* module update *) destruct Hwf as (Hfq & Hown). apply h_mod_update_spec in H; [|exact Hown].
+    destruct H as (rc & capo & Erc & _ & _ & _ & Hcap & Hto & Htot & Htf & Hcnt & _ & ->).
+    eapply I_ctx_put; eauto using SEq_refl. intros Hok.
+    set (t := if thr =? 0 then c_thr rc else thr).
+    destruct (with_thr_fixed rc t)
+      as (_ & _ & _ & _ & F5 & F6 & _ & F8 & F9 & F10 & F11 & _ & _ & _ & _ & F16 & F17).
+    apply upd_ctx_ok; try assumption; rewrite ?F6, ?F9, ?F11; try assumption.
+    eapply ctx_ok_eq; [exact Hok|assumption..|]. rewrite F16. tauto.
+  - (* module pause *) apply h_mod_pause_spec in H. destruct H as (rc & Erc & _ & Hrep & Hr & ->).
+    eapply I_ctx_put; eauto using SEq_refl. intros Hok.
+    eapply ctx_ok_eq; [exact Hok|reflexivity..|]. intros; congruence.
+  - (* module start *) apply h_mod_start_spec in H. destruct H as (rc & Erc & _ & Hp & ->).
+    eapply I_ctx_started; eauto.
+  - (* module kill *) apply h_mod_kill_spec in H. destruct H as (rc & Erc & _ & Hrep & ->).
+    eapply I_ctx_put; eauto using SEq_refl. intros Hok.
+    eapply ctx_ok_eq; [exact Hok|reflexivity..|]. intros; congruence.
 Qed.
 
 Lemma rc1_fields rc rc1 : rc1 = rc \/ (c_bdone rc = false /\ rc1 = setc_bdone rc true) ->
@@ -224,6 +240,10 @@ Proof.
   - apply h_update_ctx_spec in H.
     destruct H as (rc & capo & _ & _ & _ & _ & _ & _ & _ & _ & _ & ->). split; reflexivity.
   - exfalso. eapply Hne. reflexivity.
+  - mod_shape H; split; reflexivity.
+  - mod_shape H; split; reflexivity.
+  - mod_shape H; split; reflexivity.
+  - mod_shape H; split; reflexivity.
 Qed.
 
 Lemma I_time_init h0 t0 f : 1 <= h0 -> 0 <= t0 -> wf_funding f -> I_time (init h0 t0 f).
